@@ -27,7 +27,9 @@
 #include <functional>
 #include <memory>
 #include <string>
+#include <pthread.h>
 #include <thread>
+#include <time.h>
 #include <vector>
 
 namespace ex = pika::execution::experimental;
@@ -197,12 +199,44 @@ static void run_on(int where, std::vector<std::thread>& os, std::function<void()
 }
 
 // ---- state based (never time based) completion / hang detection ---------------------------------
-// returns 0 ok, 1 hang (nothing moves any more although obligations are outstanding), 2 log overflow
+// returns 0 ok, 1 hang (nothing moves any more although obligations are outstanding), 2 log overflow.
+// A poll counts as "quiet" only if neither the log nor the ledger moved AND every worker thread (of
+// both pools) that is not asleep has itself consumed at least 0.5 ms of CPU time since the previous
+// quiet poll (idle workers spin through their scheduling loop, so a worker that got CPU and still
+// made no progress really has nothing it can do).  On an overloaded machine - the workers run with
+// reduced OS priority - starved workers accumulate no quiet polls, so slowness can never turn
+// into a verdict.  200 quiet polls = every live worker burnt >= 100 ms of CPU without any progress.
+static long long thread_cpu_ns(std::thread& t)
+{
+    clockid_t cid;
+    if (pthread_getcpuclockid(t.native_handle(), &cid) != 0) return -1;
+    struct timespec ts;
+    if (clock_gettime(cid, &ts) != 0) return -1;
+    return ts.tv_sec * 1000000000LL + ts.tv_nsec;
+}
+static std::vector<long long> worker_cpu()
+{
+    std::vector<long long> v;
+    for (thread_pool_base* p : {g_wp, g_dp})
+        for (std::size_t i = 0; i < p->get_os_thread_count(); ++i)
+        {
+            bool asleep = p->get_scheduler()->get_state(i).load() == pika::runtime_state::sleeping;
+            v.push_back(asleep ? -1 : thread_cpu_ns(p->get_os_thread_handle(p->get_thread_offset() + i)));
+        }
+    return v;
+}
+static bool all_advanced(std::vector<long long> const& before, std::vector<long long> const& now)
+{
+    for (std::size_t i = 0; i < now.size() && i < before.size(); ++i)
+        if (now[i] >= 0 && before[i] >= 0 && now[i] - before[i] < 500000LL) return false;
+    return true;
+}
 static int wait_until(std::function<bool()> finished)
 {
     int quiet = 0;
     std::size_t last_log = 0;
     long last_done = -1;
+    std::vector<long long> last_cpu = worker_cpu();
     for (;;)
     {
         std::this_thread::sleep_for(std::chrono::milliseconds(2));
@@ -217,10 +251,19 @@ static int wait_until(std::function<bool()> finished)
         long d = g_done.load();
         if (logsz == last_log && d == last_done)
         {
-            if (++quiet >= 200) return finished() ? 0 : 1;
+            std::vector<long long> c = worker_cpu();
+            if (all_advanced(last_cpu, c))
+            {
+                last_cpu = c;
+                if (++quiet >= 200) return finished() ? 0 : 1;
+            }
             std::this_thread::sleep_for(std::chrono::milliseconds(20));
         }
-        else quiet = 0;
+        else
+        {
+            quiet = 0;
+            last_cpu = worker_cpu();
+        }
         last_log = logsz;
         last_done = d;
     }
